@@ -29,7 +29,8 @@ without_out="$(cargo test --offline $tests 2>&1)"; without_rc=$?
 without_sum="$(echo "$without_out" | grep '^test result' | awk '{p+=$4; f+=$6} END{print p" passed "f" failed"}')"
 fin
 if [ $with_rc -eq 0 ]; then echo "VERIFY $ID: REJECT demo passes WITH the change ($with_sum)"; exit 1; fi
-if ! echo "$with_out" | grep -q "test result: FAILED"; then echo "VERIFY $ID: REJECT demo does not run with the change (build error?)"; echo "$with_out" | tail -5; exit 1; fi
+if echo "$with_out" | grep -qE "could not compile|^error\[E"; then echo "VERIFY $ID: REJECT demo does not build with the change"; echo "$with_out" | tail -5; exit 1; fi
+if ! echo "$with_out" | grep -qE "test result: FAILED|FAIL|panicked|test failed"; then echo "VERIFY $ID: REJECT demo exits non-zero with the change but reports no failure"; echo "$with_out" | tail -5; exit 1; fi
 if [ $without_rc -ne 0 ]; then echo "VERIFY $ID: REJECT demo fails WITHOUT the change ($without_sum)"; echo "$without_out" | grep -E "panicked|FAILED" | head -5; exit 1; fi
 D="$V/seeded/$ID"; mkdir -p "$D/demo"
 cp "$SRC/patch.diff" "$D/patch.diff"; cp "$SRC"/demo/* "$D/demo/"; cp "$SRC/notes.md" "$D/notes.md" 2>/dev/null
